@@ -8,6 +8,8 @@
 // that dies (signal, sanitizer abort, watchdog) is a violation of the case it was running and is
 // restarted behind that case. There is no randomness anywhere.
 #pragma once
+#include <sys/file.h>
+#include <fcntl.h>
 #include <algorithm>
 #include <array>
 #include <atomic>
@@ -630,6 +632,14 @@ namespace kit
     else
       {
         g.rundir = "/verif/build/run/" + spec.property + (replay_file.empty() ? "" : "_replay" + std::to_string(getpid()));
+        if (replay_file.empty())
+          {
+            // two runs of one property share this directory (world files, reference data): a second run waits until the first one is done.
+            // The descriptor stays open for the life of the process and is inherited by its children.
+            (void)!system("mkdir -p /verif/build/run");
+            const int lock_fd = open(("/verif/build/run/" + spec.property + ".lock").c_str(), O_CREAT | O_RDWR, 0644);
+            if (lock_fd >= 0) (void)flock(lock_fd, LOCK_EX);
+          }
         (void)!system(("rm -rf " + g.rundir + " && mkdir -p " + g.rundir).c_str());
         setenv("KIT_RUNDIR", g.rundir.c_str(), 1);
       }
